@@ -35,6 +35,9 @@ type FanSpec struct {
 	HomePath bool `json:"homePath,omitempty"`
 	// ViaLoader: the fan entry goes through a configuration file and fan2go's loader instead of a struct literal
 	ViaLoader bool `json:"viaLoader,omitempty"`
+	// CmdOneTool (cmd fans): setPwm, getPwm and getRpm are one executable called with different arguments (the README's
+	// nvidia-settings example, ipmitool, liquidctl ...)
+	CmdOneTool bool `json:"cmdOneTool,omitempty"`
 	// CmdTwice (cmd fans): the setPwm command carries the %pwm% placeholder twice inside one argument
 	CmdTwice bool `json:"cmdTwice,omitempty"`
 	ExpMin   *int `json:"expMin,omitempty"`
@@ -82,6 +85,7 @@ type CycleStep struct {
 	PlantK  string     `json:"plantKind,omitempty"`
 	Intrude *Intrusion `json:"intrude,omitempty"` // applied after the polls, before the cycle
 	Fault   *FaultSpec `json:"fault,omitempty"`   // active during this cycle only
+	PollFault *FaultSpec `json:"pollFault,omitempty"` // active during the RPM polls before this cycle only
 	Mid     *MidIntrusion `json:"mid,omitempty"`  // interference in the middle of this cycle
 }
 
@@ -253,7 +257,8 @@ func buildWorld(ctx *Ctx, sc *Scenario) *World {
 		w.cmdDir = dir
 		_ = os.WriteFile(filepath.Join(dir, "pwm"), []byte(strconv.Itoa(sc.InitPwm)), 0644)
 		_ = os.WriteFile(filepath.Join(dir, "theta"), []byte(strconv.Itoa(sc.Plant.Theta)), 0644)
-		cmdScript(filepath.Join(dir, "set.sh"), "echo \"$1\" > "+dir+"/pwm; echo \"$1\" >> "+dir+"/writes")
+		// while the file "setfail" exists the set command fails without touching the device
+		cmdScript(filepath.Join(dir, "set.sh"), "if [ -e "+dir+"/setfail ]; then exit 1; fi; echo \"$1\" > "+dir+"/pwm; echo \"$1\" >> "+dir+"/writes")
 		// while the file "garble" exists the tool answers with a message instead of the value (exit status 0)
 		cmdScript(filepath.Join(dir, "get.sh"), "if [ -e "+dir+"/garble ]; then echo 'device busy'; else cat "+dir+"/pwm; fi")
 		cmdScript(filepath.Join(dir, "rpm.sh"), "p=$(cat "+dir+"/pwm); t=$(cat "+dir+"/theta); if [ \"$p\" -lt \"$t\" ]; then echo 0; else echo $((200+p*"+strconv.Itoa(sc.Plant.MaxRpm)+"/255)); fi")
@@ -271,6 +276,17 @@ func buildWorld(ctx *Ctx, sc *Scenario) *World {
 		}
 		if sc.Fan.HasRpm {
 			cfg.Cmd.GetRpm = &configuration.ExecConfig{Exec: filepath.Join(dir, "rpm.sh")}
+		}
+		if sc.Fan.CmdOneTool {
+			tool := filepath.Join(dir, "tool.sh")
+			cmdScript(tool, "sub=$1; shift; case \"$sub\" in set) exec "+dir+"/set.sh \"$@\";; get) exec "+dir+"/get.sh;; rpm) exec "+dir+"/rpm.sh;; esac; exit 64")
+			cfg.Cmd.SetPwm = &configuration.ExecConfig{Exec: tool, Args: []string{"set", "%pwm%"}}
+			if cfg.Cmd.GetPwm != nil {
+				cfg.Cmd.GetPwm = &configuration.ExecConfig{Exec: tool, Args: []string{"get"}}
+			}
+			if cfg.Cmd.GetRpm != nil {
+				cfg.Cmd.GetRpm = &configuration.ExecConfig{Exec: tool, Args: []string{"rpm"}}
+			}
 		}
 		if sc.Fan.ViaLoader {
 			loaded, lerr := fanConfigViaLoader(ctx, cfg)
@@ -308,6 +324,25 @@ func (w *World) devicePwm() int {
 		b, _ := os.ReadFile(filepath.Join(w.cmdDir, "pwm"))
 		n, _ := strconv.Atoi(strings.TrimSpace(string(b)))
 		return n
+	}
+	return -1
+}
+
+// trueRpm: what the device really does at its present PWM value (the plant), not what fan2go's accessors report
+func (w *World) trueRpm() int {
+	pwm := w.devicePwm()
+	switch {
+	case w.VFan != nil && w.VFan.Plant != nil:
+		return w.VFan.Plant.Rpm(pwm)
+	case w.Sim != nil && w.Sim.RpmFn != nil:
+		return w.Sim.RpmFn(pwm)
+	case w.cmdDir != "":
+		b, _ := os.ReadFile(filepath.Join(w.cmdDir, "theta"))
+		theta, _ := strconv.Atoi(strings.TrimSpace(string(b)))
+		if pwm < theta {
+			return 0
+		}
+		return 200 + pwm*w.Sc.Plant.MaxRpm/255
 	}
 	return -1
 }
@@ -397,16 +432,22 @@ func runScenario(ctx *Ctx, sc *Scenario, obs Observer) {
 			w.setTheta(*st.Theta, st.PlantK)
 		}
 		rec := &CycleRecord{Idx: i, Step: st}
+		if st.PollFault != nil && w.VFan != nil {
+			d.Rules = []*util.VerifRule{{Path: w.targetPath(st.PollFault.Target), Op: st.PollFault.Op, Action: st.PollFault.Action, Errno: st.PollFault.Errno, Raw: st.PollFault.Raw}}
+		}
 		for p := 0; p < st.Polls; p++ {
 			if w.Fan.Supports(fans.FeatureRpmSensor) {
 				w.Ctrl.VerifMeasureRpm()
-				if rpm, err := w.Fan.GetRpm(); err == nil {
+				if rpm := w.trueRpm(); rpm >= 0 {
 					rec.LastRpm = rpm
 					if rpm == 0 {
 						rec.RpmSeenZero = true
 					}
 				}
 			}
+		}
+		if st.PollFault != nil && w.VFan != nil {
+			d.Rules = nil
 		}
 		if st.Intrude != nil {
 			if st.Intrude.Pwm != nil {
@@ -674,6 +715,28 @@ func homeKind(r *rand.Rand, kind string) (string, bool) {
 	return kind, kind == "file" && r.Intn(3) == 0
 }
 
+// noisyMeasurement: a measured RPM curve is not smooth - a third of them get a few samples in the rising part that lie
+// slightly below their predecessor (never 0, never reaching the top), which changes neither the first PWM with rotation
+// nor the first PWM with the highest RPM.
+func noisyMeasurement(r *rand.Rand, data map[int]float64, start, top int) {
+	if r.Intn(3) != 0 {
+		return
+	}
+	var ks []int
+	for k := range data {
+		if k > start && k < top {
+			ks = append(ks, k)
+		}
+	}
+	sortInts(ks)
+	for n := 0; n < 3 && len(ks) > 1; n++ {
+		i := 1 + r.Intn(len(ks)-1)
+		if v := data[ks[i-1]] - float64(5+r.Intn(40)); v >= 100 {
+			data[ks[i]] = v
+		}
+	}
+}
+
 func genFan(r *rand.Rand, kinds []string) (FanSpec, int, int) {
 	kind, home := homeKind(r, pick(r, kinds...))
 	mn, mx := genLimits(r)
@@ -703,6 +766,7 @@ func genFan(r *rand.Rand, kinds []string) (FanSpec, int, int) {
 			if ms > 0 {
 				data[ms-1] = 0
 			}
+			noisyMeasurement(r, data, ms, mm)
 			f.Measured = data
 			switch r.Intn(3) {
 			case 0: // maximum configured (at or above the measured start), minimum measured
@@ -756,7 +820,12 @@ func genFan(r *rand.Rand, kinds []string) (FanSpec, int, int) {
 			if mn > 0 {
 				data[mn-1] = 0
 			}
+			noisyMeasurement(r, data, mn, mx)
 			f.Measured = data
+			f.ExpMin, f.ExpMax = iptr(mn), iptr(mx)
+			if !f.NeverStop {
+				f.ExpMin = iptr(0)
+			}
 		}
 	case "sim":
 		f.SimMin, f.SimMax = mn, mx
@@ -767,6 +836,7 @@ func genFan(r *rand.Rand, kinds []string) (FanSpec, int, int) {
 		if kind == "cmd" {
 			f.HasPwm = r.Intn(3) > 0 // a third of the cmd fans are write-only (no getPwm command)
 			f.CmdTwice = r.Intn(3) == 0
+			f.CmdOneTool = !f.CmdTwice && r.Intn(2) == 0
 		}
 	}
 	if !f.NeverStop {
